@@ -26,7 +26,7 @@ impl Property for C09 {
          oracle = f + sum_c w_c g_c^2 (resp. f + w sum g_c^2) as an exact polynomial in the joint variables (x, w) + bookkeeping model; non-trivial = >=2 active constraints of degree>=1 or >=1 pre-existing removed constraint; distinct = sha256(instance, method, weights)"
     }
     fn required_labels(&self) -> Vec<String> {
-        ["method=per-constraint", "method=uniform", "pre-removed", "absent-function", "noncontiguous-ids", "instantiated", "hints", "dependency", "regime=general", "regime=dyadic", "removed-reason-of-sdk-transformation", "constraint-id=u64::MAX", "two-constraints-with-identical-function", "active-constraints=16", "active-constraints=32"].iter().map(|s| s.to_string()).collect()
+        ["method=per-constraint", "method=uniform", "pre-removed", "absent-function", "noncontiguous-ids", "instantiated", "hints", "dependency", "regime=general", "regime=dyadic", "removed-reason-of-sdk-transformation", "constraint-id=u64::MAX", "two-constraints-with-identical-function", "active-constraints=16", "active-constraints=32", "active-constraints=65", "active-constraints=100"].iter().map(|s| s.to_string()).collect()
     }
     fn cases(&self, tier: Tier) -> usize {
         match tier {
@@ -48,7 +48,7 @@ impl Property for C09 {
         let instantiate = t.p(120);
         let wseed: Vec<f64> = (0..6).map(|_| if t.p(32) { 0.0 } else { gen_coeff(t, Regime::Dyadic, false) }).collect();
         let dup = if t.p(40) { Some(t.byte() as u64) } else { None };
-        let many = if t.p(16) { Some((*t.pick(&[15usize, 16, 17, 32, 33]), t.byte() as u64)) } else { None };
+        let many = if t.p(16) { Some((*t.pick(&[15usize, 16, 17, 32, 33, 65, 100]), t.byte() as u64)) } else { None };
         let mut cfg = InstCfg::new(regime);
         cfg.hints = true;
         cfg.func.max_degree = 2;
@@ -76,7 +76,7 @@ impl Property for C09 {
             inst.constraints[last].function = Some(g);
             ctx.label("two-constraints-with-identical-function");
         }
-        // many active constraints (counts around 16 and 32)
+        // many active constraints (counts around 16 and 32; 65 and 100)
         if let Some((target, seed)) = many {
             let taken: BTreeSet<u64> = inst.constraints.iter().map(|c| c.id).chain(inst.removed_constraints.iter().filter_map(|rc| rc.constraint.as_ref().map(|c| c.id))).collect();
             let mut k = 0u64;
